@@ -33,6 +33,7 @@ RULE = (
     "or a nested scope, and the exit point was reached; distinct = distinct (program, exit point)."
     " Extensions of rounds 9-12: tools advanced up to 10 steps, tools handing out further iterators drawn more often; aggregations over the handle; callables failing with a TypeError at one of their first calls (tools; min/max/reduce); merge with a key."
     " Round 13: merge in reverse direction; rarely a long stream with a selection of 1024+ items failing at an unorderable item."
+    " Round 14: the exception leaving the block is a GeneratorExit one time in five (the block sits in an async generator that is closed while parked inside it)."
 )
 COMPONENTS = COMPONENTS_BASE
 ASSUMPTIONS = [
@@ -53,6 +54,11 @@ class BlockStop(StopAsyncIteration):
 
 class BlockError(Exception):
     pass
+
+
+#: what leaves the block when it sits in an async generator that is closed while parked inside the block: the plain
+#: class, as the interpreter throws it (a subclass would not meet code that tests ``exc_type is GeneratorExit``)
+BlockExit = GeneratorExit
 
 
 class ScopeError(Exception):
@@ -90,6 +96,7 @@ def prepare(ch):
     # (and, being only borrowed, what is underneath stays open)
     prep.src.lazy_open = False  # (the probes after the block advance iterators directly)
     prep.block_stop = ch.chance(1, 4)  # the exception leaving the block is a StopAsyncIteration
+    prep.block_exit = ch.chance(1, 5)  # ... or a GeneratorExit (round 14: the enclosing async generator was closed)
     prep.borrowed = prep.src.flavour in ("agen", "aiter_cls", "aiter_full") and ch.chance(1, 6)
     ops = []
     depth = 1
@@ -253,7 +260,7 @@ def run_block(prep, st, mode, pos, interrupts):
                 handles.append(h1)
                 await run_ops(prep.ops, 0, handles, left)
                 res["exit"] = "fallthrough"
-        except (BlockError, ScopeError, BlockStop):
+        except (BlockError, ScopeError, BlockStop, BlockExit):
             res["exit"] = "exception"
         except Cancel:
             res["exit"] = "cancel"
@@ -305,7 +312,7 @@ def run_block(prep, st, mode, pos, interrupts):
         while i < len(ops):
             if mode == 1 and pos == i:
                 res["reached"] = True
-                raise (BlockStop if prep.block_stop else BlockError)("after op %d" % i)
+                raise (BlockExit if prep.block_exit else BlockStop if prep.block_stop else BlockError)("after op %d" % i)
             op = ops[i]
             h = handles[-1]
             if op[0] == "tool":
@@ -424,7 +431,7 @@ def run_block(prep, st, mode, pos, interrupts):
                 return i + 1
         if mode == 1 and pos >= len(ops) and len(handles) == 1:
             res["reached"] = True
-            raise (BlockStop if prep.block_stop else BlockError)("at the end")
+            raise (BlockExit if prep.block_exit else BlockStop if prep.block_stop else BlockError)("at the end")
         return i
 
     task = sim.spawn(block())
